@@ -10,7 +10,7 @@ META = {
     "assumptions": [
         "bit flips are placed as sign flips of the corresponding symbol component, which is the effect of a flipped code bit for BPSK/QPSK; for other constellations the bounded-error clause is the displacement clause of the property",
         "pairings: 8 (code, decoder) x 6 modulations where the path budget allows (quick: <= 16 code bits per call)",
-        "soft-decision chains (Wagner, SC, BP with soft demodulation) are covered through C10/C11/C15, not composed here",
+        "soft-decision chains: Wagner / SC min-sum / soft Reed-Muller behind BPSK and QPSK soft demodulation (noise variance symbolic for the ideal channel, grid {0.1, 2.5} for displaced symbols); displaced QPSK for 8-bit codes and BP decoders are not composed here (C10/C11/C15 cover the stages)",
     ],
     "out_of_reach": ["Berlekamp-Massey decoder inside the chain: bounded stand-in (seeded random messages and flip patterns)"],
 }
